@@ -148,11 +148,13 @@ Definition read_pce (s : ard) : option ((Z * Z) * ard) :=
   obind (a_skip (8 * comment_bytes) s) (fun s =>
   Some ((sfi, channels + nlfe), s)))))))))))))))))))))).
 
-(* for i in range(npce): ProgramConfigElement(r) *)
-Fixpoint read_more_pces (n : nat) (s : ard) : option ard :=
+(* for i in range(npce): if bitstream_type == 0: r.skip(20); ProgramConfigElement(r) *)
+Fixpoint read_more_pces (bitstream_type : Z) (n : nat) (s : ard) : option ard :=
   match n with
   | O => Some s
-  | S n' => obind (read_pce s) (fun '(_, s) => read_more_pces n' s)
+  | S n' =>
+    obind (if bitstream_type =? 0 then a_skip 20 s else Some s) (fun s =>
+    obind (read_pce s) (fun '(_, s) => read_more_pces bitstream_type n' s))
   end.
 
 (* AACInfo._parse_adif up to and including the final r.align(): Some ([bitrate; sfi; channels], reader) *)
@@ -165,7 +167,7 @@ Definition read_adif (s : ard) : option (list Z * ard) :=
   obind (a_bits 4 s) (fun '(npce, s) =>
   obind (if bitstream_type =? 0 then a_skip 20 s else Some s) (fun s =>
   obind (read_pce s) (fun '((sfi, channels), s) =>
-  obind (read_more_pces (Z.to_nat npce) s) (fun s =>
+  obind (read_more_pces bitstream_type (Z.to_nat npce) s) (fun s =>
   Some ([bitrate; sfi; channels], a_align s)))))))))).
 
 (* BitPaddedInt(header[6:]) *)
